@@ -9,6 +9,7 @@ import (
 	"fmt"
 	"html"
 	"reflect"
+	"regexp"
 	"strings"
 	"text/template"
 	"text/template/parse"
@@ -906,6 +907,16 @@ func (e *escaper) escapeText(c context, n *parse.TextNode) context {
 		c, i = c1, i1
 	}
 
+	if c.state == stateSpecialElementBody && rawTextTagStartPattern.Match(s) {
+		if sc, err := sanitizationContextForElementContent(c.element.name); err == nil && sc == sanitizationContextHTML {
+			// The content of this element is raw text, in which "<" is not rewritten, and the
+			// element takes plain strings: what follows could complete the end tag.
+			return context{
+				state: stateError,
+				err:   errorf(ErrBadHTML, n, 0, "text inside the %q element ends in %q, which an action could complete into an end tag", c.element.name, rawTextTagStartPattern.Find(s)),
+			}
+		}
+	}
 	if written != 0 && c.state != stateError {
 		if !isComment(c.state) || c.delim != delimNone {
 			b.Write(n.Text[written:])
@@ -914,6 +925,9 @@ func (e *escaper) escapeText(c context, n *parse.TextNode) context {
 	}
 	return c
 }
+
+// rawTextTagStartPattern matches text that ends in the start of an end tag.
+var rawTextTagStartPattern = regexp.MustCompile(`<(?:/[a-zA-Z]*)?$`)
 
 // contextAfterText starts in context c, consumes some tokens from the front of
 // s, then returns the context after those tokens and the unprocessed suffix.
